@@ -374,6 +374,11 @@ theorem c19_short_path (incl excl : List String) (root f : String) :
         rw [this, List.drop_left]
       · intro hq; cases hq
 
+/-- tripwire: read from the source on every run: the snapshot action context (the source the frame collector asks
+    in production) answers `is_app_frame` by asking the configuration of its trigger and nothing else, so
+    `c19_app_frame` / `c19_short_path` are about the frames the agent actually pushes. -/
+theorem c19_collector_asks_config : contextAsksConfig = true := by decide
+
 /-! ## environment text -/
 
 theorem strList_map (xs : List String) : strList (xs.map CVal.str) = some xs := by
@@ -533,7 +538,100 @@ theorem c19_app_frame_from_env (custom : List (String × CVal)) (env : Env) (px 
     (c19_exclude_list_flat env px).2, hroot]
   rfl
 
+/-! ## every documented setting at its use site -/
+
+/-- tripwire: the use-site table covers every documented setting (`documentedKeys` is read from docs/config/config.md
+    on every run: a newly documented setting without a use-site reading fails here). -/
+theorem c19_use_site_covers_documented : ∀ k ∈ documentedKeys, ∀ v : CVal, (useOf k v).isSome = true := by
+  intro k hk v
+  simp only [documentedKeys, List.mem_cons, List.not_mem_nil, or_false] at hk
+  rcases hk with rfl | rfl | rfl | rfl | rfl | rfl | rfl | rfl <;> rfl
+
+/-- `NativeOf k t v`: `v` is how a programmer writes in code what the environment spells as the text `t` for the
+    documented setting `k` — the text itself for the text settings; a bool / number / text whose `str()` is `t` for
+    SERVICE_SECURE; the float or int the text spells for POLL_TIMER; the list of the comma separated parts for
+    IN_APP_INCLUDE.  (IN_APP_EXCLUDE: `c19_exclude_env_appends_interpreter_prefix`, the disclosed asymmetry;
+    APP_ROOT goes through `deep.start`: `c19_documented_env_eq_code_partial`.) -/
+inductive NativeOf : String → String → CVal → Prop
+  | url (t : String) : NativeOf "SERVICE_URL" t (CVal.str t)
+  | logging (t : String) : NativeOf "LOGGING_CONF" t (CVal.str t)
+  | auth (t : String) : NativeOf "SERVICE_AUTH_PROVIDER" t (CVal.str t)
+  | flag (v : CVal) (t : String) (h : pyStr v = some t) (hn : v.isNone = false) : NativeOf "SERVICE_SECURE" t v
+  | secondsFloat (r : String) : NativeOf "POLL_TIMER" r (CVal.float r)
+  | secondsInt (s : String) (n : Int) (h : Py.parseInt s = some n) : NativeOf "POLL_TIMER" s (CVal.int n)
+  | secondsText (t : String) : NativeOf "POLL_TIMER" t (CVal.str t)
+  | inclList (t : String) : NativeOf "IN_APP_INCLUDE" t (CVal.list ((splitStr ',' t).map CVal.str))
+
+theorem get_code (k : String) (v : CVal) (c : List (String × CVal)) (env : Env) (px : String)
+    (hown : ownNames.contains k = false) (hn : v.isNone = false) :
+    (World.mk ((k, v) :: c) env px).get k = callIt v := by
+  simp only [World.get]
+  exact (c19_precedence _ env px k hown).1 v (by simp [List.lookup]) hn
+
+theorem get_env_text (k : String) (hk : k ∈ textKeys) (t : String) (c : List (String × CVal)) (env : Env)
+    (px : String) (hown : ownNames.contains k = false) (hc : c.lookup k = none) :
+    (World.mk c (("DEEP_" ++ k, t) :: env) px).get k = CVal.str t := by
+  simp only [World.get]
+  rw [((c19_precedence c _ px k hown).2 (Or.inl hc)).1 _ (moduleValue_text k hk t env px)]; rfl
+
+/-- **every documented setting behaves identically at its USE SITE whether given in code or as its DEEP_ variable**
+    — for every text `t`, every native spelling `v` of it (`NativeOf`), every other code entries and environment:
+    the consumer of the setting (channel target / `str2bool` / `float()` / provider path / logging file / prefix
+    iteration) computes the same thing from `{k: v}` in code and from `DEEP_<k>=t`.  Holds because RepeatedTimer
+    coerces with `float()` and `str2bool` with `str()` (both read from the source on every run). -/
+theorem c19_use_site_env_eq_code (k t : String) (v : CVal) (h : NativeOf k t v) (c : List (String × CVal))
+    (env : Env) (px : String) (hc : c.lookup k = none) :
+    (World.mk ((k, v) :: c) env px).use k = (World.mk c (("DEEP_" ++ k, t) :: env) px).use k := by
+  cases h with
+  | url =>
+    simp only [World.use]
+    rw [get_code _ _ _ _ _ (by decide) rfl, get_env_text _ (by decide) _ _ _ _ (by decide) hc]; rfl
+  | logging =>
+    simp only [World.use]
+    rw [get_code _ _ _ _ _ (by decide) rfl, get_env_text _ (by decide) _ _ _ _ (by decide) hc]; rfl
+  | auth =>
+    simp only [World.use]
+    rw [get_code _ _ _ _ _ (by decide) rfl, get_env_text _ (by decide) _ _ _ _ (by decide) hc]; rfl
+  | flag _ _ h hn =>
+    simp only [World.use]
+    rw [get_code _ _ _ _ _ (by decide) hn, get_env_text _ (by decide) _ _ _ _ (by decide) hc]
+    have hcall : callIt v = v := by cases v <;> first | rfl | simp [pyStr] at h
+    rw [hcall]
+    simp only [useOf, c19_bool_setting_native_eq_text v t h]
+  | secondsFloat =>
+    simp only [World.use]
+    rw [get_code _ _ _ _ _ (by decide) rfl, get_env_text _ (by decide) _ _ _ _ (by decide) hc]
+    simp only [useOf, callIt, c19_poll_interval_float_text]
+  | secondsInt _ n h =>
+    simp only [World.use]
+    rw [get_code _ _ _ _ _ (by decide) rfl, get_env_text _ (by decide) _ _ _ _ (by decide) hc]
+    simp only [useOf, callIt, c19_poll_interval_text t n h]
+  | secondsText =>
+    simp only [World.use]
+    rw [get_code _ _ _ _ _ (by decide) rfl, get_env_text _ (by decide) _ _ _ _ (by decide) hc]; rfl
+  | inclList =>
+    have := c19_include_code_list_eq_env t c env px hc
+    have hE : "DEEP_" ++ "IN_APP_INCLUDE" = "DEEP_IN_APP_INCLUDE" := by decide
+    simp only [World.use, World.get, useOf, hE, this.1, this.2]
+
+/-- the two routes can disagree when the native value is NOT a spelling of the text: the int 0 is not the text
+    "0.5" — and the hypothesis `hn` of `NativeOf.flag` is needed: `None` in code is "not given", not the text "None" -/
+theorem c19_use_site_needs_native_witness :
+    (World.mk [("POLL_TIMER", CVal.int 0)] [] "/px").use "POLL_TIMER" ≠
+      (World.mk [] [("DEEP_POLL_TIMER", "0.5")] "/px").use "POLL_TIMER" ∧
+    (World.mk [("SERVICE_SECURE", CVal.none)] [] "/px").use "SERVICE_SECURE" = some (Use.flag true) ∧
+    (World.mk [] [("DEEP_SERVICE_SECURE", "None")] "/px").use "SERVICE_SECURE" = some (Use.flag false) := by decide
+
 /-! ### non-vacuity -/
+
+/-- use sites: a fractional interval as text and as float, False as bool and as text, an include list -/
+example : (World.mk [] [("DEEP_POLL_TIMER", "0.25")] "/px").use "POLL_TIMER" = some (Use.seconds ⟨25, 2⟩) ∧
+    (World.mk [("POLL_TIMER", CVal.float "0.25")] [] "/px").use "POLL_TIMER" = some (Use.seconds ⟨25, 2⟩) ∧
+    (World.mk [("SERVICE_SECURE", CVal.bool false)] [] "/px").use "SERVICE_SECURE" = some (Use.flag false) ∧
+    (World.mk [] [("DEEP_IN_APP_INCLUDE", "/a,/b")] "/px").use "IN_APP_INCLUDE" = some (Use.prefixes ["/a", "/b"]) ∧
+    NativeOf "SERVICE_SECURE" "False" (CVal.bool false) :=
+  ⟨by decide, by decide, by decide, by decide, NativeOf.flag _ _ rfl rfl⟩
+
 
 /-- the translated `__getattribute__`: own attribute before the code dict; a `None` custom dict; a code `None` falls
     through to the module default, an unknown name to `DEEP_<name>`, a callable is called, nothing found = `None` -/
